@@ -49,8 +49,12 @@ Depth2 == Depth1 \cup Unary(Leaves) \cup Binary(RepLeaves, RepLeaves) \cup WideT
 \* pairwise nesting of constructors over three leaves
 Mid == Unary({U8, STR, K("unit")}) \cup Binary({U8, STR}, {STR, K("unit")})
 Depth3 == Depth2 \cup Unary(Mid) \cup Binary(Mid, {U8}) \cup Binary({STR}, Mid)
-
-TypesAt(d) == IF d <= 1 THEN Depth1 ELSE IF d = 2 THEN Depth2 ELSE Depth3
+\* a wider third level (every constructor over every representative leaf, then every constructor again)
+\* and a fourth level over two leaves
+Mid6 == Unary(RepLeaves) \cup Binary(RepLeaves, {U8, STR})
+Deep == Unary(Unary(Unary({U8, STR}) \cup Binary({U8}, {STR})))
+Depth4 == Depth3 \cup Unary(Mid6) \cup Binary(Mid6, {STR}) \cup Binary({U8}, Mid6) \cup Deep
+TypesAt(d) == IF d <= 1 THEN Depth1 ELSE IF d = 2 THEN Depth2 ELSE IF d = 3 THEN Depth3 ELSE Depth4
 
 -----------------------------------------------------------------------------
 (* Boundary values, as sequences (deterministic order) *)
@@ -105,13 +109,17 @@ LeafVals(T) ==
     [] T.k = "ndate" -> DateVals
     [] T.k = "ntime" -> TimeVals
     [] T.k = "ndt" -> NdtVals \o NdtExtreme
-    [] T.k = "dtlocal" -> NdtVals
+    [] T.k = "dtlocal" -> NdtVals \o NdtExtreme
     [] T.k = "dtutc" -> <<<<0>> \o Z(12), <<0>> \o Z(7) \o <<1>> \o NanosMax, <<0>> \o FF(8) \o Z(4),
                           <<0, 0, 0, 0, 0, 128, 0, 0, 0, 0, 0, 0, 5>>, <<0, 255, 255, 255, 255, 0, 0, 0, 0, 0, 0, 1, 0>>>>
     [] T.k = "dtfixed" -> <<<<15, NdtVals[1], OffVals[1]>>, <<15, NdtVals[2], OffVals[4]>>, <<15, NdtVals[3], OffVals[5]>>,
-                            <<15, NdtVals[4], OffVals[2]>>, <<15, NdtVals[5], OffVals[3]>>>>
+                            <<15, NdtVals[4], OffVals[2]>>, <<15, NdtVals[5], OffVals[3]>>,
+                            \* the last / first representable instants, one second inside the range
+                            <<15, <<14, DateVals[5], <<13, 23, 59, 59, 999999999>>>>, <<11, 1>>>>,
+                            <<15, <<14, DateVals[6], <<13, 0, 0, 0, 0>>>>, <<11, -1>>>>>>
     [] T.k = "dttz" -> <<<<16, NdtVals[1], ZoneSeq[1]>>, <<16, NdtVals[2], ZoneSeq[2]>>, <<16, FoldNdt, ZoneSeq[3]>>,
-                         <<16, NdtVals[3], ZoneSeq[4]>>, <<16, NdtVals[5], ZoneSeq[3]>>>>
+                         <<16, NdtVals[3], ZoneSeq[4]>>, <<16, NdtVals[5], ZoneSeq[3]>>,
+                         <<16, NdtExtreme[1], ZoneSeq[1]>>, <<16, NdtExtreme[2], ZoneSeq[1]>>>>
     [] T.k = "bigint" -> <<B9(<<0>>), B9(<<1>>), B9(<<255>>), B9(<<127>>), B9(<<0, 128>>), B9(<<128>>), B9(<<255, 127>>),
                            B9(<<1, 0, 0, 0, 0, 0, 0, 0, 0>>), B9(<<255>> \o Z(16))>>
     [] T.k = "bigdec" -> DecimalSeq
